@@ -291,9 +291,10 @@ func vC07_failure() {
 	// arbitrary fault history of the family
 	all := [3]*PID{child, sib[0], sib[1]}
 	var preCount, preLast [3]int64
+	t0 := time.Now().UnixNano()
 	for i := 0; i <= nsib; i++ {
 		preCount[i], preLast[i] = vNondetInt64("faults"), vNondetInt64("lastFaultAt")
-		vAssume(preCount[i] >= 0 && preCount[i] <= 6 && preLast[i] >= 0 && preLast[i] < 1<<61)
+		vAssume(preCount[i] >= 0 && preCount[i] <= 6 && preLast[i] >= 0 && preLast[i] <= t0) // 0 = no fault so far; never in the future
 		all[i].consecutiveFaults.Store(preCount[i])
 		all[i].lastFaultAtNano.Store(preLast[i])
 	}
